@@ -24,6 +24,6 @@ Lemma link_structure :
   /\ Gen.Kernel.tpcn_proposal_is_mu_plus_a_diff_plus_noise = true
   /\ Gen.Kernel.scale_is_inverse_of_gamma_draw = true /\ Gen.Kernel.delta_uses_inverse_scale_of_assigned_mode = true
   /\ Gen.Kernel.accept_mask_is_uniform_strictly_below_alpha = true /\ Gen.Kernel.alpha_is_min_one_exp_nan_to_zero = true
-  /\ Gen.Kernel.out_of_cube_proposals_are_redrawn = true
+  /\ Gen.Kernel.out_of_cube_proposals_are_rejected = true
   /\ Gen.Kernel.inverse_and_cholesky_are_of_the_mode_scale_matrix = true.
 Proof. repeat split. Qed.
